@@ -488,9 +488,24 @@ fn run_ops<'g>(game: &'g Game<u64, u64>, other_game: Option<&'g Game<u64, u64>>,
 }
 
 fn main() {
+    // run on a big stack: trees can be hundreds of levels deep (parsing, from_root and the solvers recurse)
+    let child = std::thread::Builder::new()
+        .stack_size(1 << 30)
+        .spawn(real_main)
+        .expect("spawn main thread");
+    child.join().expect("main thread");
+}
+
+fn real_main() {
     let args: Vec<String> = std::env::args().collect();
     let text = std::fs::read_to_string(&args[1]).expect("read cases");
-    let cases: Value = serde_json::from_str(&text).expect("parse cases");
+    // deep game trees nest far beyond serde_json's default recursion limit
+    let cases: Value = {
+        use serde::Deserialize;
+        let mut de = serde_json::Deserializer::from_str(&text);
+        de.disable_recursion_limit();
+        Value::deserialize(&mut de).expect("parse cases")
+    };
     // silence the default panic hook: panics are results here
     std::panic::set_hook(Box::new(|_| {}));
     let mut results = Vec::new();
